@@ -107,8 +107,8 @@ def gen_case(backend, rnd, nmsg, nops, concurrent):
     import signal
     from gevent.exceptions import LoopExit
     run = Run(backend, concurrent, {'prefix': rnd.choice(['slimta:', 'slimta:', 'mq-', 'slimta:q-', 'q.']), 'onedir': rnd.random() < 0.3})
-    signal.signal(signal.SIGALRM, _alarm)
-    signal.setitimer(signal.ITIMER_REAL, 60.0)
+    signal.signal(signal.SIGPROF, _alarm)
+    signal.setitimer(signal.ITIMER_PROF, 60.0)
     try:
         _gen_body(run, backend, rnd, nmsg, nops, concurrent)
     except (LoopExit, Watchdog) as e:
@@ -118,7 +118,7 @@ def gen_case(backend, rnd, nmsg, nops, concurrent):
         except BaseException:  # noqa
             pass
     finally:
-        signal.setitimer(signal.ITIMER_REAL, 0)
+        signal.setitimer(signal.ITIMER_PROF, 0)
     return run
 
 
